@@ -54,7 +54,7 @@ LEVEL_TEXT = ("proof (Lean 4) of: vertical layout = structural specification for
               "the pinned 'ascii' entry, by decide; refuted for 'ascii': K4) and names without white space, hence the horizontal form is injective on Node trees; "
               "PARTIAL: dot ids only conditionally injective (K2), mermaid one-node rendering (K3), ascii horizontal style (K4); "
               "everything is tied to /repo by the correspondence check (exact text / vertex+edge multisets / flow lines)")
-LEVEL_NOTE = "dot ids conditional (K2); mermaid single node (K3); ascii hstyle ambiguous (K4); horizontal decode proved for the Lean decoder and tested on real output by the oracle's Python reader"
+LEVEL_NOTE = "dot ids conditional (K2); mermaid single node (K3); ascii hstyle ambiguous (K4); horizontal decode proved for the Lean decoder and tested on real output by the oracle's Python reader" + " K11: ':' in names is read by pydot as a port (not generated for dot cases, replayed separately)."
 TECHNIQUE = "Lean 4 model of the renderers + kernel-checked theorems; differential test real bigtree vs compiled model; generated style tables discharged by decide"
 
 BUILTIN = ["ansi", "ascii", "const", "const_bold", "rounded", "double"]
